@@ -324,3 +324,101 @@ def dihedral(b1, b2, b3):
     n2 = np.cross(b2, b3)
     m = np.cross(n1, b2 / np.linalg.norm(b2, axis=-1, keepdims=True))
     return np.arctan2(np.einsum("...k,...k->...", m, n2), np.einsum("...k,...k->...", n1, n2)), n1, n2
+
+
+# ---------------------------------------------------------------------------------------------------------------
+# History layer: one Topology object is edited in place between re-imaging calls.  The model below is the
+# independent description of what the topology should be at every moment.
+
+HIST_OPS = ("W", "I", "insF", "insI", "del", "bond")      # W = make_molecules_whole, I = image_molecules(make_whole=True)
+
+
+def hist_systems():
+    """name -> model: atoms as rows (molecule centre (fractional), local offset in bond lengths), bonds in topology
+    order, residue id per atom, index of the atom whose molecule is the explicit anchor."""
+    a = np.deg2rad(104.0)
+    ohh = np.array([[0, 0, 0], [1, 0, 0], [np.cos(a), np.sin(a), 0.0]])          # O H H
+    out = {}
+    c1, c2, ci = [0.3, 0.35, 0.4], [0.72, 0.6, 0.55], [0.15, 0.8, 0.2]
+    out["OHH+ion+OHH"] = dict(
+        centre=np.array([c1] * 3 + [ci] + [c2] * 3), local=np.vstack([ohh, [[0, 0, 0]], ohh[:, [1, 2, 0]]]),
+        bonds=[(0, 1), (0, 2), (4, 5), (4, 6)], res=[0, 0, 0, 2, 1, 1, 1], anchor=0)
+    s = _star4()
+    out["HHO+ion+star4(centre last)"] = dict(
+        centre=np.array([c1] * 3 + [ci] + [c2] * 4), local=np.vstack([ohh[[1, 2, 0]], [[0, 0, 0]], s[[1, 2, 3, 0]]]),
+        bonds=[(0, 2), (1, 2), (4, 7), (5, 7), (6, 7)], res=[0, 0, 0, 2, 1, 1, 1, 1], anchor=2)
+    return out
+
+
+def hist_clone(m):
+    return dict(centre=m["centre"].copy(), local=m["local"].copy(), bonds=list(m["bonds"]), res=list(m["res"]),
+                anchor=m["anchor"], inserted=list(m.get("inserted", [])))
+
+
+def hist_edit(m, op):
+    """Apply an edit to the model; returns a description of what to do to the real Topology, or None if the edit is
+    not applicable in this state (the history is then pruned).
+    ('insert', index, residue id) | ('delete', index) | ('bond', i, j)"""
+    n = len(m["res"])
+    deg = [0] * n
+    for a, b in m["bonds"]:
+        deg[a] += 1
+        deg[b] += 1
+    if op in ("insF", "insI"):
+        k = 0 if op == "insF" else 1                  # front of the topology / inside the first bonded molecule
+        ref = k                                        # the atom now at k (pushed to k+1) is the reference atom
+        m["centre"] = np.insert(m["centre"], k, m["centre"][ref], axis=0)
+        m["local"] = np.insert(m["local"], k, m["local"][ref] + np.array([0.3, 0.4, 0.2]), axis=0)
+        m["bonds"] = [(a + (a >= k), b + (b >= k)) for a, b in m["bonds"]]
+        m["res"].insert(k, m["res"][ref])
+        m["anchor"] += m["anchor"] >= k
+        m["inserted"] = [(i + (i >= k), r + (r >= k)) for i, r in m["inserted"]] + [(k, ref + 1)]
+        return ("insert", k, m["res"][k])
+    if op == "del":                                    # the lowest-index atom without any bond (renumbers what follows)
+        cand = [i for i in range(n) if deg[i] == 0 and i != m["anchor"]]
+        if not cand:
+            return None
+        d = cand[0]
+        m["centre"] = np.delete(m["centre"], d, axis=0)
+        m["local"] = np.delete(m["local"], d, axis=0)
+        m["bonds"] = [(a - (a > d), b - (b > d)) for a, b in m["bonds"]]
+        del m["res"][d]
+        m["anchor"] -= m["anchor"] > d
+        m["inserted"] = [(i - (i > d), r - (r > d)) for i, r in m["inserted"] if i != d and r != d]
+        return ("delete", d)
+    if op == "bond":                                   # an inserted, still unbonded site is bonded to its reference atom
+        for i, r in m["inserted"]:
+            if deg[i] == 0:
+                m["bonds"].append((min(i, r), max(i, r)))
+                return ("bond", i, r)
+        return None
+    raise ValueError(op)
+
+
+def hist_positions(m, V, bond_len, seed):
+    R = _rot(seed)
+    j = grids.jitter(64, 3, 0.08, seed)[: len(m["res"])] * 0       # geometry is generic already; no per-index jitter
+    return m["centre"] @ V + (m["local"] + j) @ R.T * bond_len
+
+
+def hist_scatters(m):
+    """identity, every single atom and every molecule (component) shifted by each of the 6 face images."""
+    n = len(m["res"])
+    groups = [[i] for i in range(n)] + [sorted(c) for c in components(n, m["bonds"]) if len(c) > 1]
+    rows = [np.zeros((n, 3), np.int64)]
+    for g in groups:
+        for s in FACE6:
+            r = np.zeros((n, 3), np.int64)
+            r[g] = s
+            rows.append(r)
+    return np.array(rows)
+
+
+def hist_sequences(depth):
+    """Every op sequence of length 2..depth that ends with a re-imaging op (trailing edits are never observed)."""
+    out = []
+    for L in range(2, depth + 1):
+        for seq in itertools.product(HIST_OPS, repeat=L):
+            if seq[-1] in ("W", "I"):
+                out.append(seq)
+    return out
